@@ -15,6 +15,9 @@ def extra(led, tier, seed):
     led.extend(o for o in fit_loop.obligations() if any(k in o.name for k in (
         "exactly one _update_weights call site", "batch loop iterates _batchify", "epoch loop is range(self.max_iter)",
         "n_iter_ = max_iter", "_batchify(X, affinity, rng)")))
+    # the batch size the loops use is the one the caller gave: every constructor stores batch_size (and the other options) unchanged
+    from contracts import forwarding
+    led.extend(o for o in forwarding.init_obligations() if "GEMINI" not in o.name and not o.name.startswith("MI."))
     led.assume("A2", "A4", "A8",
                "random_state.permutation(n) returns a permutation of 0..n-1 (contract on NumPy)",
                "NumPy indexing axioms: X[idx][a] = X[idx[a]], (A[r][:, c])[a,b] = A[r[a], c[b]], arange(n)[part] = part",
